@@ -316,7 +316,7 @@ def gen_factor_matrix(rng, kind=None):
         colptr.append(len(rowind))
     return {"n": n, "colptr": colptr, "rowind": rowind, "val": val, "kind": kind,
             "permc": rng.choice([0, 1, 2, 3]), "panel": rng.choice([1, 2, 4, 8]), "relax": rng.choice([1, 2, 4, 8]),
-            "maxsuper": rng.choice([1, 3, 8, 20, 100])}
+            "maxsuper": rng.choice([1, 3, 8, 20, 100]), "nprocs": rng.choice([1, 1, 2, 4])}
 
 
 # ----------------------------------------------------------------------------------- emit: C case file
@@ -367,7 +367,7 @@ def to_c(c):
         return "copy %s %s %d %d %s %s %s\n" % (c["id"], c_sparse(c["A"]), len(c["bval"]), len(c["bcolptr"]),
                                               " ".join(chex(x) for x in c["bval"]), c_ivec(c["browind"]), c_ivec(c["bcolptr"]))
     if op == "factor":
-        return "factor %s %d %d %d %d %d %d %s %s %s\n" % (c["id"], c["permc"], c["panel"], c["relax"], c["maxsuper"], c["n"],
+        return "factor %s %d %d %d %d %d %d %d %s %s %s\n" % (c["id"], c.get("nprocs", 1), c["permc"], c["panel"], c["relax"], c["maxsuper"], c["n"],
                                                          len(c["val"]), c_ivec(c["colptr"]), c_ivec(c["rowind"]),
                                                          " ".join(chex(x) for x in c["val"]))
     if op == "trsv":
@@ -500,7 +500,7 @@ def parse_factor(c, r, ncomp=1):
     perm_r, p = take_vec(tok, p, False); perm_c, p = take_vec(tok, p, False)
     return {"n": n, "nsuper": ns, "lval": lval, "nzbeg": nzbeg, "nzend": nzend, "rowind": rowind, "ribeg": ribeg, "riend": riend,
             "col2sup": col2sup, "supbeg": supbeg, "supend": supend, "uval": uval, "urowind": urow, "ucolbeg": ucb, "ucolend": uce,
-            "perm_r": perm_r, "perm_c": perm_c, "src": "pdgssv:" + c["kind"],
+            "perm_r": perm_r, "perm_c": perm_c, "src": "pdgssv:%s:np%d" % (c["kind"], c.get("nprocs", 1)),
             "sizes": [supend[k] - supbeg[k] for k in range(ns + 1)]}
 
 
@@ -573,46 +573,9 @@ def F(x):
 
 
 def oracle_gemv(c, yres, u, ncomp=1):
-    """dense definition in exact rationals + rounding bound; returns None or description.
-    yres: resulting y array as python numbers (float or complex)"""
-    A = c["A"]
-    D = c.get("dense") or dense_of(A)
-    tr = c["tr"].upper()
-    notran = tr == "N"
-    m, n = A["m"], A["n"]
-    lenx, leny = (n, m) if notran else (m, n)
-    if m == 0 or n == 0:
-        lenx = leny = 0
-    incx, incy = c["incx"], c["incy"]
-    kx = 0 if incx > 0 else -(lenx - 1) * incx
-    ky = 0 if incy > 0 else -(leny - 1) * incy
-    al, be = c["alpha"], c["beta"]
-    touched = set()
-    kmax = 0
-    for i in range(leny):
-        iy = c["yo"] + ky + i * incy
-        touched.add(iy)
-        if notran:
-            terms = [(D[i][j], c["x"][c["xo"] + kx + j * incx]) for j in range(n)]
-        else:
-            terms = [(D[j][i], c["x"][c["xo"] + kx + j * incx]) for j in range(m)]
-        if ncomp == 1:
-            ex = F(al) * sum((a * F(x) for a, x in terms), Fraction(0)) + F(be) * F(c["y"][iy])
-            mag = abs(F(al)) * sum((abs(a) * abs(F(x)) for a, x in terms), Fraction(0)) + abs(F(be)) * abs(F(c["y"][iy]))
-            k = sum(1 for a, x in terms if a != 0) + 3
-            err = abs(F(yres[iy]) - ex)
-        else:
-            raise NotImplementedError
-        kmax = max(kmax, k)
-        if err > gamma(k, u) * mag:
-            return "y[%d]: got %r, exact %s, |err| %.3e > bound %.3e" % (iy, yres[iy], float(ex), float(err), float(gamma(k, u) * mag))
-    if c.get("_collect") is not None:
-        c["_collect"] |= touched
-        return None
-    for i in range(len(c["y"])):
-        if i not in touched and bits_of(float(yres[i])) != bits_of(float(c["y"][i])):
-            return "y[%d] outside the vector was modified" % i
-    return None
+    """dense definition (sum over the STORED entries, so duplicates and cancelling entries are counted and bounded individually)
+    in exact rationals + rounding bound; returns None or a description.  Delegates to the precision-generic oracle."""
+    return kp_gemv(c, yres, dict(PREC["d"], u=u), collect=c.get("_collect"))
 
 
 def lu_dense(Fc):
@@ -838,7 +801,7 @@ def vals_of(tok, ncomp):
     return ds if ncomp == 1 else [complex(ds[2 * i], ds[2 * i + 1]) for i in range(len(ds) // 2)]
 
 
-def kp_gemv(c, yres, P, conjugate_for_C=True):
+def kp_gemv(c, yres, P, conjugate_for_C=True, collect=None):
     """exact dense definition of y := alpha*op(A)*x + beta*y over CQ with the gamma bound"""
     A = c["A"]
     m, n = A["m"], A["n"]
@@ -874,6 +837,9 @@ def kp_gemv(c, yres, P, conjugate_for_C=True):
         err = (CQ.of(yres[iy]) - ex).abs1()
         if err > bound:
             return "y[%d]: got %r, |err|=%.3e > bound %.3e" % (iy, yres[iy], float(err), float(bound))
+    if collect is not None:
+        collect |= touched
+        return None
     for i in range(len(c["y"])):
         if i not in touched and not (CQ.of(yres[i]) - CQ.of(c["y"][i])).iszero():
             return "y[%d] outside the vector was modified" % i
@@ -1410,9 +1376,9 @@ def run(ctx):
         "1x1..14x14) + illegal arguments; gemm 0..3 right-hand sides; lsolve/usolve/matvec every ncol 0..21 (all unrolling "
         "remainders) + random offsets/leading dimensions; langs every norm letter; CompRow_to_CompCol, Copy; sp_trsv on "
         "synthetic supernodal factors (supernode widths from {1,2,3,4,5,7,8,9,12,16,17}) and on factors returned by p?gssv "
-        "(1 thread, 6 matrix kinds, 4 orderings, varied panel/relax/maxsuper), all four uplo/trans combinations. A case is "
+        "(1, 2 or 4 threads, 6 matrix kinds, 4 orderings, varied panel/relax/maxsuper), all four uplo/trans combinations. A case is "
         "non-trivial when it reaches the arithmetic (all but the illegal-argument cases).")
-    nscale = 1 if ctx.quick() else 6
+    nscale = 1 if ctx.quick() else 15
     proofs_ok = ctx.coq_properties()
     lib, fl = ctx.build_lib("hooks")
     exe = ctx.cc_harness("spblas_d", ["spblas_harness.c", "sp_ienv_verif.c"], lib, fl)
@@ -1522,6 +1488,11 @@ def run(ctx):
     ctx.cov["partial"] += [
         "rounded bounds (gamma_k) are not Coq theorems: gemv_rounded_full / trsv_rounded_full stay Definitions; they are "
         "enforced as the executed exact-rational oracle on every C result",
+        "cr2cc_preserves_full (dCompRow_to_CompCol preserves the entry function) is a Definition, not a theorem; tied by K-exact + oracle",
+        "trsv_*_exact assume wf_factor, which numbers the supernodes in column order (true for 1-thread factorizations); with several "
+        "threads the numbering is only a topological order (C09 clauses 24/25) -- those factors are covered by the bit-exact "
+        "correspondence and the residual oracle, not by the theorems",
+        "complex kernels (c, z) have no Gallina model: exact oracle only; trans='C' conjugation is outside the real-arithmetic model",
     ]
     ctx.cov["trusted_base"] += [
         "Coq primitive floats = IEEE-754 binary64 = gcc -O2 -ffp-contract=off doubles on x86-64 (FloatAxioms are not used by any theorem; "
